@@ -28,6 +28,8 @@ CONSTANTS
   MaxDeliveries, \* bound on Process* steps
   HeadersFirst,  \* TRUE: all headers are delivered (in id order) before any body (C03 setting)
   TxShapes       \* "none" | "small" (1-in-1-out) | "locks" (1-in-1-out, lock heights) | "nrd" (1-in-1-out, NRD kernels) | "full" (<=2 in, <=2 out, locks)
+                 \* | "locks2" / "nrd2": as "locks" / "nrd" with up to TWO transactions (two kernels) per block and per pool query
+                 \* | "nrdoff": as "nrd2" while the node's NRD feature flag is off (every NRD kernel is refused)
 
 Reward == 4      \* units (1 unit = 15 grin in the harness)
 Fee == 1
@@ -42,6 +44,10 @@ NrdRel(t) == (t.lock - 1000) % 10
 LockH(t) == IF t.lock < 1000 THEN t.lock ELSE 0
 NrdKeys == {1, 2}
 NrdFrom == 9      \* first height whose header version allows NRD kernels (AutomatedTesting: HF every 3 blocks)
+NrdEnabled == TxShapes # "nrdoff"     \* global::is_nrd_enabled()
+ShapeLocks == TxShapes \in {"full", "locks", "locks2"}
+ShapeNrd == TxShapes \in {"nrd", "nrd2", "nrdoff"}
+ShapeTwo == TxShapes \in {"locks2", "nrd2", "nrdoff"}
 \* compaction constants of the AutomatedTesting chain type (global.rs)
 Horizon == 20         \* cut_through_horizon
 CompactEvery == 60    \* Chain::compact runs only when head >= tail + Horizon + CompactEvery
@@ -74,7 +80,17 @@ LCA(a, b) == IF a = b THEN a
 RECURSIVE Segment(_, _)
 Segment(a, b) == IF a = b THEN <<>> ELSE Append(Segment(a, Parent(b)), b)
 
-BlockFee(b) == IF HasTx(tree[b].tx) THEN Fee ELSE 0
+\* A block carries up to two transactions (tx, tx2; tx2 only if tx): Block::new aggregates them, so the body has
+\* the union of their inputs and outputs and one kernel per transaction.  (Trees of other modules may lack tx2.)
+Tx2(b) == IF "tx2" \in DOMAIN tree[b] THEN tree[b].tx2 ELSE NoTx
+BTxs(b) == {t \in {tree[b].tx, Tx2(b)} : HasTx(t)}
+BIns(b) == tree[b].tx.ins \cup Tx2(b).ins
+BOuts(b) == tree[b].tx.outs \cup Tx2(b).outs
+NTxs(b) == (IF HasTx(tree[b].tx) THEN 1 ELSE 0) + (IF HasTx(Tx2(b)) THEN 1 ELSE 0)
+BlockFee(b) == Fee * NTxs(b)
+\* lock height of a body = the MAX of its kernels' lock heights (TransactionBody::lock_height, Block::verify_kernel_lock_heights)
+MaxLock(T) == IF T = {} THEN 0 ELSE LET t == CHOOSE x \in T : \A y \in T : LockH(y) <= LockH(x) IN LockH(t)
+BNrd(b) == {t \in BTxs(b) : IsNrd(t)}
 Val(c) == IF c < 100 THEN Reward + (IF c = 0 THEN 0 ELSE BlockFee(c)) ELSE PoolVal[c]
 RECURSIVE SumVal(_)
 SumVal(S) == IF S = {} THEN 0 ELSE LET c == CHOOSE x \in S : TRUE IN Val(c) + SumVal(S \ {c})
@@ -83,8 +99,8 @@ SumVal(S) == IF S = {} THEN 0 ELSE LET c == CHOOSE x \in S : TRUE IN Val(c) + Su
 \* commitment bytes and is not observable through the projection)
 RECURSIVE SetToSeq(_)
 SetToSeq(S) == IF S = {} THEN <<>> ELSE LET c == CHOOSE x \in S : \A y \in S : x <= y IN <<c>> \o SetToSeq(S \ {c})
-BlockOuts(b) == [i \in 1..Cardinality(tree[b].tx.outs) |->
-                    [c |-> SetToSeq(tree[b].tx.outs)[i], cb |-> FALSE, h |-> Height(b)]]
+BlockOuts(b) == [i \in 1..Cardinality(BOuts(b)) |->
+                    [c |-> SetToSeq(BOuts(b))[i], cb |-> FALSE, h |-> Height(b)]]
                 \o <<[c |-> b, cb |-> TRUE, h |-> Height(b)]>>
 
 -----------------------------------------------------------------------------
@@ -95,27 +111,34 @@ LeafOf(u, c) == {i \in u.unspent : u.outs[i].c = c}       \* unspent leaves carr
 
 \* Stateless body rules (Block::validate): balance, lock height, cut-through.
 BodyOK(b) ==
-  LET t == tree[b].tx IN
   /\ tree[b].flag \notin {"badSums"}
-  /\ LockH(t) <= Height(b)
-  /\ (IsNrd(t) => Height(b) >= NrdFrom)
-  /\ t.ins \cap t.outs = {}
-  /\ HasTx(t) => SumVal(t.ins) = SumVal(t.outs) + Fee
+  /\ MaxLock(BTxs(b)) <= Height(b)                          \* every kernel's lock height, i.e. the largest
+  /\ (BNrd(b) # {} => (NrdEnabled /\ Height(b) >= NrdFrom))  \* verify_nrd_kernels_for_header_version
+  /\ BIns(b) \cap BOuts(b) = {}
+  /\ \A t \in BTxs(b) : SumVal(t.ins) = SumVal(t.outs) + Fee
+
+\* the first body rule that refuses b (observation for signatures and reach quotas, never compared with an error kind)
+BodyWhy(b) == IF tree[b].flag = "badSums" THEN "sums"
+              ELSE IF MaxLock(BTxs(b)) > Height(b) THEN (IF \E t \in BTxs(b) : LockH(t) <= Height(b) /\ LockH(t) > 0 THEN "lock_one_of_two_locked"
+                                                         ELSE IF NTxs(b) = 2 THEN "lock_one_of_two" ELSE "lock")
+              ELSE IF BNrd(b) # {} /\ ~(NrdEnabled /\ Height(b) >= NrdFrom) THEN (IF NrdEnabled THEN "nrd_header_version" ELSE "nrd_disabled")
+              ELSE IF BIns(b) \cap BOuts(b) # {} THEN "cut_through" ELSE "unbalanced"
 
 \* Stateless header rules (validate_header + validate_root in the header extension)
 HeaderOK(b) == tree[b].flag \notin {"badTime", "badPrevRoot"}
 
 \* Contextual rules of block b on UTXO state u (verify_coinbase_maturity, validate_utxo)
 UtxoOK(u, b) ==
-  LET t == tree[b].tx IN
-  /\ \A c \in t.ins : LeafOf(u, c) # {}                                   \* every input is unspent here
-  /\ \A c \in t.ins : \A i \in LeafOf(u, c) : u.outs[i].cb => u.outs[i].h + Maturity <= Height(b)
-  /\ \A c \in t.outs \cup {b} : LeafOf(u, c) = {}                         \* no duplicate of an unspent commitment
+  /\ \A c \in BIns(b) : LeafOf(u, c) # {}                                   \* every input is unspent here
+  /\ \A c \in BIns(b) : \A i \in LeafOf(u, c) : u.outs[i].cb => u.outs[i].h + Maturity <= Height(b)
+  /\ \A c \in BOuts(b) \cup {b} : LeafOf(u, c) = {}                         \* no duplicate of an unspent commitment
 
 \* late checks, after the block has been applied to the working MMRs
-LateOK(b) == tree[b].flag \notin {"badRoot", "badSize", "badKernelRoot"}
+\* (output root, output MMR size, kernel root, range-proof root, kernel MMR size of the header)
+LateFlags == {"badRoot", "badSize", "badKernelRoot", "badRproofRoot", "badKernelSize"}
+LateOK(b) == tree[b].flag \notin LateFlags
 
-SpentLeaves(u, b) == UNION {LeafOf(u, c) : c \in tree[b].tx.ins}
+SpentLeaves(u, b) == UNION {LeafOf(u, c) : c \in BIns(b)}
 ApplyU(u, b) ==
   LET k == Len(u.outs)
       new == BlockOuts(b)
@@ -133,17 +156,19 @@ Replay(b) == IF b = 0 THEN GenesisU ELSE ApplyU(Replay(Parent(b)), b)
 \* heights (ascending) at which an NRD kernel with excess key k occurs on the chain ending in b
 RECURSIVE NrdHist(_, _)
 NrdHist(b, k) == IF b = 0 THEN <<>>
-                 ELSE IF IsNrd(tree[b].tx) /\ NrdKey(tree[b].tx) = k THEN Append(NrdHist(Parent(b), k), Height(b))
+                 ELSE IF \E t \in BNrd(b) : NrdKey(t) = k THEN Append(NrdHist(Parent(b), k), Height(b))
                  ELSE NrdHist(Parent(b), k)
 \* relative lock: the same excess must not have occurred fewer than `rel` blocks earlier on this fork
-NrdOK(hist, b) == LET t == tree[b].tx IN
-                  IsNrd(t) => (hist = <<>> \/ Height(b) - hist[Len(hist)] >= NrdRel(t))
+\* (kernel t at height h against the earlier occurrences `hist` of its excess)
+NrdOKt(hist, t, h) == IsNrd(t) => (hist = <<>> \/ h - hist[Len(hist)] >= NrdRel(t))
+\* two NRD kernels of one block carry different excesses (Mint), so each is judged against the parent's history
+NrdOKb(b) == \A t \in BNrd(b) : NrdOKt(NrdHist(Parent(b), NrdKey(t)), t, Height(b))
 
 RECURSIVE Valid(_)
 Valid(b) == IF b = 0 THEN TRUE
             ELSE /\ Valid(Parent(b)) /\ HeaderOK(b) /\ BodyOK(b)
                  /\ UtxoOK(Replay(Parent(b)), b)
-                 /\ (IsNrd(tree[b].tx) => NrdOK(NrdHist(Parent(b), NrdKey(tree[b].tx)), b))
+                 /\ NrdOKb(b)
                  /\ LateOK(b)
 
 RECURSIVE HeaderChainOK(_)
@@ -171,12 +196,18 @@ OposLeaf(nd, c) == {p[2] : p \in {q \in nd.opos : q[1] = c}}
 ImplLeafOf(u, opos, c) == {i \in {p[2] : p \in {q \in opos : q[1] = c}} : i \in u.unspent /\ u.outs[i].c = c}
 
 ImplUtxoOK(u, opos, b) ==
-  LET t == tree[b].tx IN
-  /\ \A c \in t.ins : ImplLeafOf(u, opos, c) # {}
-  /\ \A c \in t.ins : \A i \in ImplLeafOf(u, opos, c) : u.outs[i].cb => u.outs[i].h + Maturity <= Height(b)
-  /\ \A c \in t.outs \cup {b} : ImplLeafOf(u, opos, c) = {}
+  /\ \A c \in BIns(b) : ImplLeafOf(u, opos, c) # {}
+  /\ \A c \in BIns(b) : \A i \in ImplLeafOf(u, opos, c) : u.outs[i].cb => u.outs[i].h + Maturity <= Height(b)
+  /\ \A c \in BOuts(b) \cup {b} : ImplLeafOf(u, opos, c) = {}
 
-ImplSpent(u, opos, b) == UNION {ImplLeafOf(u, opos, c) : c \in tree[b].tx.ins}
+UtxoWhy(u, opos, b) ==
+  IF \E c \in BIns(b) : ImplLeafOf(u, opos, c) = {} THEN "input_not_unspent"
+  ELSE IF \E c \in BIns(b) : \E i \in ImplLeafOf(u, opos, c) : u.outs[i].cb /\ u.outs[i].h + Maturity > Height(b)
+       THEN (IF \E c \in BIns(b) : \E i \in ImplLeafOf(u, opos, c) : u.outs[i].cb /\ u.outs[i].h + Maturity = Height(b) + 1
+             THEN "immature_coinbase_by_one" ELSE "immature_coinbase")
+  ELSE "duplicate_commitment"
+
+ImplSpent(u, opos, b) == UNION {ImplLeafOf(u, opos, c) : c \in BIns(b)}
 
 \* apply_block: push outputs (+index), prune inputs (-index), save spent index
 ImplApply(st, b) ==
@@ -190,9 +221,7 @@ ImplApply(st, b) ==
                \cup {<<new[j].c, k + j>> : j \in 1..Len(new)},
       spentIdx |-> [x \in DOMAIN st.spentIdx \cup {b} |-> IF x = b THEN sp ELSE st.spentIdx[x]],
       sums |-> st.sums \cup {b},
-      nrd |-> IF IsNrd(tree[b].tx)
-              THEN [st.nrd EXCEPT ![NrdKey(tree[b].tx)] = Append(@, Height(b))]
-              ELSE st.nrd,
+      nrd |-> [kk \in DOMAIN st.nrd |-> IF \E t \in BNrd(b) : NrdKey(t) = kk THEN Append(st.nrd[kk], Height(b)) ELSE st.nrd[kk]],
       ok |-> st.ok]
 
 \* rewind_single_block: truncate to the previous header's size, unspend via the spent index,
@@ -204,14 +233,14 @@ ImplRewindOne(st, b) ==
       created == {BlockOuts(b)[j].c : j \in 1..Len(BlockOuts(b))}
       u2 == [outs |-> SubSeq(u.outs, 1, keep), unspent |-> {i \in u.unspent : i <= keep} \cup sp]
   IN [st EXCEPT !.u = u2,
-                !.nrd = IF IsNrd(tree[b].tx)       \* kernel_index.rewind: drop entries above the previous header
-                        THEN [@ EXCEPT ![NrdKey(tree[b].tx)] = SelectSeq(@, LAMBDA h : h < Height(b))]
-                        ELSE @,
+                \* kernel_index.rewind for EVERY NRD kernel of the block: drop entries above the previous header
+                !.nrd = [kk \in DOMAIN st.nrd |-> IF \E t \in BNrd(b) : NrdKey(t) = kk
+                                                   THEN SelectSeq(st.nrd[kk], LAMBDA h : h < Height(b)) ELSE st.nrd[kk]],
                 !.opos = {p \in st.opos : p[1] \notin created /\ p[1] \notin {u2.outs[i].c : i \in sp}}
                          \cup {<<u2.outs[i].c, i>> : i \in sp}]
 
 \* apply_kernel_rules: peek the most recent entry of the recent-kernel index
-ImplNrdOK(idx, b) == IsNrd(tree[b].tx) => NrdOK(idx[NrdKey(tree[b].tx)], b)
+ImplNrdOK(idx, b) == \A t \in BNrd(b) : NrdOKt(idx[NrdKey(t)], t, Height(b))
 
 RECURSIVE ImplRewindTo(_, _, _)
 \* rewind from block `from` (current extension head) down to ancestor `to`
@@ -277,10 +306,11 @@ PreBody(nd, b) ==
 \* `note` = the adapter notification (block_accepted with determine_status): <<>> or one record
 \* [b, st: "next" | "reorg" | "fork", fp: fork point], as the pool and the network layer receive it
 NoNote == <<>>
+\* `why`: the stage at which a refused block fails (observation only)
 BodyStage(n1, b) ==
-  IF KnownInPipe(n1, b) THEN [nd |-> n1, res |-> "known", note |-> NoNote]
-  ELSE IF Parent(b) \notin n1.hdrs THEN [nd |-> n1, res |-> "reject", note |-> NoNote]      \* prev_header_store (cannot happen sequentially)
-  ELSE IF ~BodyOK(b) THEN [nd |-> n1, res |-> "reject", note |-> NoNote]
+  IF KnownInPipe(n1, b) THEN [nd |-> n1, res |-> "known", note |-> NoNote, why |-> "-"]
+  ELSE IF Parent(b) \notin n1.hdrs THEN [nd |-> n1, res |-> "reject", note |-> NoNote, why |-> "no_prev_header"]      \* prev_header_store (cannot happen sequentially)
+  ELSE IF ~BodyOK(b) THEN [nd |-> n1, res |-> "reject", note |-> NoNote, why |-> BodyWhy(b)]
   ELSE
     LET prev == Parent(b)
         fp == LCA(n1.head, prev)
@@ -288,30 +318,33 @@ BodyStage(n1, b) ==
         st1 == ImplRewindTo(st0, n1.head, fp)
         st2 == ImplApplyFork(st1, Segment(fp, prev), 1)
     IN IF \E x \in {Segment(fp, prev)[i] : i \in 1..Len(Segment(fp, prev))} : x \notin n1.bodies
-       THEN [nd |-> n1, res |-> "reject", note |-> NoNote]                                  \* a fork body is missing (get_block fails)
-       ELSE IF ~st2.ok THEN [nd |-> n1, res |-> "reject", note |-> NoNote]
-       ELSE IF ~ImplUtxoOK(st2.u, st2.opos, b) THEN [nd |-> n1, res |-> "reject", note |-> NoNote]
-       ELSE IF ~ImplNrdOK(st2.nrd, b) THEN [nd |-> n1, res |-> "reject", note |-> NoNote]
-       ELSE IF ~LateOK(b) THEN [nd |-> n1, res |-> "reject", note |-> NoNote]
+       THEN [nd |-> n1, res |-> "reject", note |-> NoNote, why |-> "fork_body_missing"]      \* a fork body is missing (get_block fails)
+       ELSE IF ~st2.ok THEN [nd |-> n1, res |-> "reject", note |-> NoNote, why |-> "fork_reapply"]
+       ELSE IF ~ImplUtxoOK(st2.u, st2.opos, b) THEN [nd |-> n1, res |-> "reject", note |-> NoNote,
+                                                      why |-> IF fp # n1.head THEN "after_rewind:" \o UtxoWhy(st2.u, st2.opos, b) ELSE UtxoWhy(st2.u, st2.opos, b)]
+       ELSE IF ~ImplNrdOK(st2.nrd, b) THEN [nd |-> n1, res |-> "reject", note |-> NoNote,
+                                             why |-> IF Cardinality(BNrd(b)) = 2 THEN "nrd_relative_two_kernels" ELSE "nrd_relative"]
+       ELSE IF ~LateOK(b) THEN [nd |-> n1, res |-> "reject", note |-> NoNote,
+                                 why |-> IF NTxs(b) > 0 THEN tree[b].flag \o "_with_tx" ELSE tree[b].flag]
        ELSE LET st3 == ImplApply(st2, b) IN
             IF Work(b) > Work(n1.head)
             THEN [nd |-> [n1 EXCEPT !.u = st3.u, !.opos = st3.opos, !.spentIdx = st3.spentIdx,
                                     !.sums = st3.sums, !.nrd = st3.nrd, !.bodies = @ \cup {b}, !.head = b,
                                     !.tail = IF @ = -1 THEN Height(b) ELSE @],
-                  res |-> "ok_head",
+                  res |-> "ok_head", why |-> "-",
                   \* determine_status asks whether the previous head is on the HEADER chain (header MMR), which
                   \* follows the header head, not the body head: a block that merely extends the head is reported
                   \* as a reorg while the header head is on another fork, and a real reorg as "next" when the
                   \* previous head is an ancestor of the header head
                   note |-> <<[b |-> b, st |-> IF Height(n1.head) <= Height(b) /\ IsAnc(n1.head, n1.hhead) THEN "next" ELSE "reorg", fp |-> fp]>>]
-            ELSE [nd |-> [n1 EXCEPT !.bodies = @ \cup {b}, !.tail = IF @ = -1 THEN Height(b) ELSE @], res |-> "ok_fork",
+            ELSE [nd |-> [n1 EXCEPT !.bodies = @ \cup {b}, !.tail = IF @ = -1 THEN Height(b) ELSE @], res |-> "ok_fork", why |-> "-",
                   note |-> <<[b |-> b, st |-> "fork", fp |-> fp]>>]
 
 ProcBlockSingle(nd, b) ==
   LET ph == ProcHeader(nd, b) IN
-  IF ~ph.ok THEN [nd |-> nd, res |-> "reject", note |-> NoNote]
+  IF ~ph.ok THEN [nd |-> nd, res |-> "reject", note |-> NoNote, why |-> "header"]
   ELSE LET pb == PreBody(ph.nd, b) IN
-       IF pb.res # "go" THEN [nd |-> pb.nd, res |-> pb.res, note |-> NoNote] ELSE BodyStage(pb.nd, b)
+       IF pb.res # "go" THEN [nd |-> pb.nd, res |-> pb.res, note |-> NoNote, why |-> "-"] ELSE BodyStage(pb.nd, b)
 
 \* check_orphans(height): process (in insertion order) all orphans at that height; if any
 \* was accepted continue with the next height.
@@ -337,8 +370,8 @@ CheckOrphans(nd, h) == CheckOrphansN(nd, h, <<>>).nd
 ProcBlock(nd, b) ==
   LET r == ProcBlockSingle(nd, b) IN
   IF r.res \in {"ok_head", "ok_fork"}
-  THEN LET c == CheckOrphansN(r.nd, Height(b) + 1, r.note) IN [nd |-> c.nd, res |-> r.res, notes |-> c.notes]
-  ELSE [nd |-> r.nd, res |-> r.res, notes |-> <<>>]
+  THEN LET c == CheckOrphansN(r.nd, Height(b) + 1, r.note) IN [nd |-> c.nd, res |-> r.res, notes |-> c.notes, why |-> r.why]
+  ELSE [nd |-> r.nd, res |-> r.res, notes |-> <<>>, why |-> r.why]
 
 -----------------------------------------------------------------------------
 (* Chain::compact (chain.rs): rewrites the pruned MMR files up to the horizon (no change of the
@@ -370,25 +403,41 @@ TxChoices(h) ==
        {[ins |-> I, outs |-> O, lock |-> lk] :
           I \in Subsets12(AllCommits, TxShapes = "full"),
           O \in Subsets12(Pool, TxShapes = "full"),
-          lk \in (IF TxShapes \in {"full", "locks"} THEN {0, h, h + 1}
-                  ELSE IF TxShapes = "nrd" THEN {0} \cup {1000 + 10 * k + r : k \in NrdKeys, r \in {1, 2}}
+          lk \in (IF ShapeLocks THEN {0, h, h + 1}
+                  ELSE IF ShapeNrd THEN {0} \cup {1000 + 10 * k + r : k \in NrdKeys, r \in {1, 2}}
                   ELSE {0})}
+\* a second transaction next to t: disjoint from it (Block::new would cut a spend of t's output through), and a
+\* second NRD kernel carries the other excess
+Tx2Choices(h, t) ==
+  IF ~ShapeTwo \/ ~HasTx(t) THEN {NoTx}
+  ELSE {NoTx} \cup {t2 \in TxChoices(h) \ {NoTx} :
+                      /\ (t2.ins \cup t2.outs) \cap (t.ins \cup t.outs) = {}
+                      /\ ~(IsNrd(t) /\ IsNrd(t2) /\ NrdKey(t) = NrdKey(t2))}
 
-Mint(p, d, t, f) ==
+Mint2(p, d, t, t2, f) ==
   LET id == Cardinality(Ids) IN
   /\ id <= Trunk + MaxBlocks
   /\ ndel = 0
-  /\ t.ins \cap t.outs = {}
-  /\ id \notin t.ins                     \* cannot spend its own coinbase
+  /\ t.ins \cap t.outs = {} /\ t2.ins \cap t2.outs = {}
+  /\ id \notin t.ins \cup t2.ins        \* cannot spend its own coinbase
   /\ HasTx(t) => SumVal(t.ins) = SumVal(t.outs) + Fee      \* only value-balanced bodies are minted (badSums is a flag)
-  /\ (f # "ok" => ~HasTx(t))             \* corrupted blocks carry no transaction (keeps the product of choices small)
-  /\ tree' = [x \in Ids \cup {id} |-> IF x = id THEN [parent |-> p, height |-> Height(p) + 1, diff |-> d, tx |-> t, flag |-> f]
+  /\ HasTx(t2) => (HasTx(t) /\ SumVal(t2.ins) = SumVal(t2.outs) + Fee)
+  /\ (t2.ins \cup t2.outs) \cap (t.ins \cup t.outs) = {}
+  /\ ~(IsNrd(t) /\ IsNrd(t2) /\ NrdKey(t) = NrdKey(t2))
+  \* blocks corrupted at the header or body stage carry no transaction (keeps the product of choices small); blocks
+  \* that fail LATE (after their inputs were pruned and their outputs pushed on the working MMRs) may carry some
+  /\ (f \notin LateFlags \cup {"ok"} => ~HasTx(t))
+  /\ tree' = [x \in Ids \cup {id} |-> IF x = id THEN [parent |-> p, height |-> Height(p) + 1, diff |-> d, tx |-> t, tx2 |-> t2, flag |-> f]
                                                 ELSE tree[x]]
   /\ last' = [k |-> "Mint", b |-> id, res |-> "-"]
   /\ UNCHANGED <<n, ndel>>
+Mint(p, d, t, f) == Mint2(p, d, t, NoTx, f)
 
+\* exhaustive configurations: late flags combine with a transaction for the flags named in LateTxFlags only
+LateTxFlags == {"badRproofRoot", "badKernelSize"}
 MintAny == \E p \in Ids, d \in Diffs, f \in Flags \cup {"ok"} :
-             \E t \in TxChoices(Height(p) + 1) : Mint(p, d, t, f)
+             \E t \in (IF f \in LateTxFlags \cup {"ok"} THEN TxChoices(Height(p) + 1) ELSE {NoTx}) :
+               \E t2 \in (IF f = "ok" THEN Tx2Choices(Height(p) + 1, t) ELSE {NoTx}) : Mint2(p, d, t, t2, f)
 
 AllMinted == Cardinality(Ids) = Trunk + MaxBlocks + 1
 \* headers-first discipline for the C03 configuration
@@ -409,7 +458,7 @@ DeliverBlock(b) ==
   /\ (HeadersFirst => HeadersDone)
   /\ LET r == ProcBlock(n, b) IN
        /\ n' = r.nd
-       /\ last' = [k |-> "ProcessBlock", b |-> b, res |-> r.res, notes |-> r.notes]
+       /\ last' = [k |-> "ProcessBlock", b |-> b, res |-> r.res, notes |-> r.notes, why |-> r.why]
   /\ ndel' = ndel + 1
   /\ UNCHANGED tree
 
@@ -444,6 +493,55 @@ Reopen ==
   /\ last' = [k |-> "Reopen", b |-> 0, res |-> "ok"]
   /\ ndel' = ndel + 1
   /\ UNCHANGED tree
+
+(* TxHashSet::init_output_pos_index, run by Chain::init (every Reopen) and by Chain::compact: make the output_pos
+   index consistent with the unspent leaves again.  Phase 1 walks the index and deletes every entry that does not
+   point at an unspent leaf holding the key's commitment and being that commitment's indexed position; phase 2 adds
+   an entry (with the height of the first best-chain header whose output MMR covers the position = the creation
+   height) for every unspent leaf whose commitment has no entry left.                                            *)
+InitOpos(u, opos0) ==
+  LET PosOf(idx, c) == {p[2] : p \in {q \in idx : q[1] = c}}
+      keep == {p \in opos0 : /\ p[2] \in u.unspent
+                             /\ p[2] \in PosOf(opos0, u.outs[p[2]].c)      \* get_output_pos(out.commitment()) = pos
+                             /\ p[1] = u.outs[p[2]].c}                       \* is_match_output_pos_key
+      missing == {i \in u.unspent : PosOf(keep, u.outs[i].c) = {}}
+  IN keep \cup {<<u.outs[i].c, i>> : i \in missing}
+\* A restart on a DAMAGED index (entries lost: `del`, a set of commitments; stale / misdirected entries present:
+\* `stale`, a function commitment -> leaf, one entry per key as in the key-value store).  The rebuild must give
+\* back the index a clean run maintains - IndexConsistent and the unchanged projection decide.
+DamagedOpos(nd, del, stale) == {p \in nd.opos : p[1] \notin del /\ p[1] \notin DOMAIN stale}
+                               \cup {<<c, stale[c]>> : c \in DOMAIN stale}
+Reindex(del, stale) ==
+  /\ AllMinted /\ ndel < MaxDeliveries /\ ndel > 0 /\ last.k \notin {"Reopen", "Reindex"}
+  /\ n' = [n EXCEPT !.orph = <<>>, !.opos = InitOpos(n.u, DamagedOpos(n, del, stale))]
+  /\ last' = [k |-> "Reindex", b |-> 0, res |-> "ok", del |-> del,
+               \* for the harness: the key, the commitment sitting at the leaf it is pointed to (-1: beyond the MMR) and whether that leaf is unspent
+               stale |-> {[c |-> c, at |-> IF stale[c] <= Len(n.u.outs) THEN n.u.outs[stale[c]].c ELSE -1, live |-> stale[c] \in n.u.unspent] : c \in DOMAIN stale}]
+  /\ ndel' = ndel + 1
+  /\ UNCHANGED tree
+
+(* Chain::unspent_outputs_by_pmmr_index(start, max_count, max_index): the unspent outputs in MMR order, from a
+   position, at most max_count of them, not beyond a position; the caller resumes behind the last position
+   returned.  In leaf indices:                                                                              *)
+UnspentSeq(u) == SelectSeq([i \in 1..Len(u.outs) |-> i], LAMBDA i : i \in u.unspent)      \* ascending leaf index
+EnumPage(u, from, cnt, upto) ==
+  LET sq == SelectSeq(UnspentSeq(u), LAMBDA i : from <= i /\ i <= upto) IN SubSeq(sq, 1, IF cnt < Len(sq) THEN cnt ELSE Len(sq))
+RECURSIVE EnumWalk(_, _, _, _)      \* all pages of size cnt concatenated
+EnumWalk(u, from, cnt, upto) ==
+  LET pg == EnumPage(u, from, cnt, upto) IN
+  IF pg = <<>> THEN <<>> ELSE pg \o EnumWalk(u, pg[Len(pg)] + 1, cnt, upto)
+\* what the walk must deliver: the commitments of the unspent leaves in MMR order (the order of the outputs of ONE
+\* block is by commitment bytes in the code and by id here; the harness compares block-wise)
+EnumOf(u) == LET sq == UnspentSeq(u) IN [j \in 1..Len(sq) |-> u.outs[sq[j]].c]
+\* sizes the header of b commits to: output leaves and kernels (one per block + one per transaction) up to b
+RECURSIVE OutCount(_)
+OutCount(b) == IF b = 0 THEN 1 ELSE OutCount(Parent(b)) + Cardinality(BOuts(b)) + 1
+RECURSIVE KernelCount(_)
+KernelCount(b) == IF b = 0 THEN 1 ELSE KernelCount(Parent(b)) + 1 + NTxs(b)
+RECURSIVE AncAt(_, _)
+AncAt(b, h) == IF Height(b) <= h THEN b ELSE AncAt(Parent(b), h)
+\* the scan bounded by the output MMR size of the ancestor a of the head: the currently unspent leaves up to it
+EnumUpTo(nd, a) == {nd.u.outs[i].c : i \in {j \in nd.u.unspent : j <= OutCount(a)}}
 
 \* the call is a no-op unless CanCompact; Next only takes it when it does something
 \* (assumption of the model, see above: no minted block forks off below the new horizon)
@@ -498,21 +596,34 @@ Probe(b) ==
    validate_tx (inputs unspent, outputs not duplicating an unspent commitment, NRD relative lock against
    the recent-kernel index), verify_coinbase_maturity and verify_tx_lock_height - all for the NEXT
    block, i.e. at height(body head) + 1, whatever the header head is.                              *)
-TxQueryRes(nd, t) ==
+\* The query is about the AGGREGATE of one or two transactions (what the pool holds after aggregation): the union of
+\* their inputs and outputs, one kernel each; its lock height is the largest of the kernels' lock heights.
+\* `spent` is what Chain::validate_inputs answers for the inputs: the outputs they would spend with their
+\* creation heights, or "err" when one of them is not unspent.
+TxQueryRes2(nd, t, t2) ==
   LET h == Height(nd.head) + 1
-      found == \A c \in t.ins : ImplLeafOf(nd.u, nd.opos, c) # {}
+      T == {x \in {t, t2} : HasTx(x)}
+      ins == t.ins \cup t2.ins
+      outs == t.outs \cup t2.outs
+      found == \A c \in ins : ImplLeafOf(nd.u, nd.opos, c) # {}
       utxo == /\ found
-              /\ \A c \in t.outs : ImplLeafOf(nd.u, nd.opos, c) = {}
-              /\ (IsNrd(t) => LET idx == nd.nrd[NrdKey(t)] IN idx = <<>> \/ h - idx[Len(idx)] >= NrdRel(t))
+              /\ \A c \in outs : ImplLeafOf(nd.u, nd.opos, c) = {}
+              \* with the feature flag off validate_tx enforces nothing about NRD kernels (the pool refuses them itself)
+              /\ \A x \in T : (IsNrd(x) /\ NrdEnabled) => NrdOKt(nd.nrd[NrdKey(x)], x, h)
       mat == /\ found
-             /\ \A c \in t.ins : \A i \in ImplLeafOf(nd.u, nd.opos, c) : nd.u.outs[i].cb => nd.u.outs[i].h + Maturity <= h
-      lock == LockH(t) <= h
-  IN [utxo |-> utxo, mat |-> mat, lock |-> lock]
-QueryTx(t) ==
+             /\ \A c \in ins : \A i \in ImplLeafOf(nd.u, nd.opos, c) : nd.u.outs[i].cb => nd.u.outs[i].h + Maturity <= h
+      lock == MaxLock(T) <= h
+      spent == IF found THEN {[c |-> q[1], h |-> nd.u.outs[q[2]].h] :
+                                 q \in {r \in ins \X (1..Len(nd.u.outs)) : r[2] \in ImplLeafOf(nd.u, nd.opos, r[1])}}
+               ELSE {}
+  IN [utxo |-> utxo, mat |-> mat, lock |-> lock, found |-> found, spent |-> spent]
+TxQueryRes(nd, t) == TxQueryRes2(nd, t, NoTx)
+QueryTx2(t, t2) ==
   /\ AllMinted /\ ndel < MaxDeliveries /\ ndel > 0
-  /\ last' = [k |-> "QueryTx", b |-> 0, res |-> TxQueryRes(n, t), tx |-> t]
+  /\ last' = [k |-> "QueryTx", b |-> 0, res |-> TxQueryRes2(n, t, t2), tx |-> t, tx2 |-> t2]
   /\ ndel' = ndel + 1
   /\ UNCHANGED <<tree, n>>
+QueryTx(t) == QueryTx2(t, NoTx)
 
 \* Trunk block k carries the transaction (coinbase of k-4 and the pool output 200+k-4 -> pool output
 \* 200+k) iff the commitment 200+k is in Pool, so that in a long trunk nearly every old leaf is spent
@@ -520,7 +631,7 @@ QueryTx(t) ==
 TrunkTx(k) == IF (200 + k) \in Pool /\ k >= 8
               THEN [ins |-> {k - 4} \cup (IF (200 + k - 4) \in Pool /\ k >= 12 THEN {200 + k - 4} ELSE {}), outs |-> {200 + k}, lock |-> 0]
               ELSE NoTx
-TrunkTree == [x \in 0..Trunk |-> [parent |-> IF x = 0 THEN 0 ELSE x - 1, height |-> x, diff |-> 1, tx |-> TrunkTx(x), flag |-> "ok"]]
+TrunkTree == [x \in 0..Trunk |-> [parent |-> IF x = 0 THEN 0 ELSE x - 1, height |-> x, diff |-> 1, tx |-> TrunkTx(x), tx2 |-> NoTx, flag |-> "ok"]]
 RECURSIVE TrunkNode(_)
 TrunkNode(k) == IF k = 0 THEN InitNode ELSE ProcBlock(TrunkNode(k - 1), k).nd
 
@@ -533,6 +644,10 @@ Next == \/ MintAny
         \/ \E b \in Ids \ {0} : DeliverHeader(b) \/ DeliverBlock(b) \/ (\E k \in 2..3 : DeliverHeaders(b, k))
         \/ Reopen
         \/ Compact
+\* with restarts on a damaged output_pos index: any one entry lost and/or any one key pointed at any leaf (incl. one
+\* beyond the MMR) - configurations that check the C02 invariants
+StaleChoices == {<<>>} \cup {(c :> i) : c \in AllCommits, i \in 1..(Len(n.u.outs) + 1)}
+NextX == Next \/ (\E d \in {{}} \cup {{c} : c \in AllCommits}, st \in StaleChoices : (d # {} \/ st # <<>>) /\ Reindex(d, st))
 
 Spec == Init /\ [][Next]_vars
 
@@ -554,6 +669,14 @@ HeadMonotone == [][n'.head # n.head => Work(n'.head) > Work(n.head)]_vars
 UnspentIsReplay == n.u = Replay(n.head)
 IndexConsistent == n.opos = {<<n.u.outs[i].c, i>> : i \in n.u.unspent}
 NoDupUnspent == \A i, j \in n.u.unspent : n.u.outs[i].c = n.u.outs[j].c => i = j
+\* the enumeration, whatever the page size, is the unspent set of the replay in MMR order; bounded by the output
+\* MMR size of an ancestor it is what was unspent there minus what the chain spent since (spent outputs never
+\* reappear in a bounded scan either)
+EnumInv == /\ \A cnt \in 1..3 : EnumWalk(n.u, 1, cnt, Len(n.u.outs)) = UnspentSeq(Replay(n.head))
+           /\ Len(n.u.outs) = OutCount(n.head)
+           /\ \A b \in Ids : IsAnc(b, n.head) =>
+                 LET k == Len(Replay(b).outs) IN
+                 {i \in 1..k : i \in n.u.unspent} \subseteq Replay(b).unspent
 SpentIdxInv == \A b \in Ids : (b # 0 /\ IsAnc(b, n.head) /\ Height(b) >= n.tail) =>
                    /\ b \in DOMAIN n.spentIdx
                    /\ n.spentIdx[b] = SpentLeaves(Replay(Parent(b)), b)
@@ -562,15 +685,14 @@ SumsInv == \A b \in Ids : (IsAnc(b, n.head) /\ Height(b) >= n.tail) => b \in n.s
 
 \* C13: every best-chain block satisfied maturity and lock rules w.r.t. its own ancestors
 MaturityLockInv == \A b \in Ids : (b # 0 /\ IsAnc(b, n.head)) =>
-                      /\ LockH(tree[b].tx) <= Height(b)
+                      /\ \A t \in BTxs(b) : LockH(t) <= Height(b)          \* EVERY kernel of the block
                       /\ LET u == Replay(Parent(b)) IN
-                           \A c \in tree[b].tx.ins : \A i \in LeafOf(u, c) : u.outs[i].cb => u.outs[i].h + Maturity <= Height(b)
+                           \A c \in BIns(b) : \A i \in LeafOf(u, c) : u.outs[i].cb => u.outs[i].h + Maturity <= Height(b)
 
 \* C13 (relative locks): the recent-kernel index equals the NRD history of the best chain, and every
 \* best-chain NRD kernel respects its relative height w.r.t. its own ancestors
 NrdInv == /\ \A k \in NrdKeys : n.nrd[k] = NrdHist(n.head, k)
-          /\ \A b \in Ids : (b # 0 /\ IsNrd(tree[b].tx) /\ IsAnc(b, n.head)) =>
-                NrdOK(NrdHist(Parent(b), NrdKey(tree[b].tx)), b)
+          /\ \A b \in Ids : (b # 0 /\ IsAnc(b, n.head)) => (NrdOKb(b) /\ (BNrd(b) # {} => NrdEnabled /\ Height(b) >= NrdFrom))
 
 \* C06: a failing call, or one that does not move the head, leaves the best-chain state alone
 RejectLeavesState == [][(n'.head = n.head /\ last'.k # "Compact") => BestProj(n') = BestProj(n)]_vars
